@@ -635,7 +635,7 @@ HARD_TIMEOUT = {"quick": 1200, "thorough": 3600}
 MIN_OBLIGATIONS = {"quick": 100, "thorough": 100}
 TRUSTED = ["lemma L-TAYLOR: Lagrange / alternating-series remainders of sin, cos, atan (stated, not machine-checked)", "own Taylor-form arithmetic cyverif.taylor (exact rationals), canary on every run",
            "mpmath 60-digit arithmetic as reference for the bounded sweep"]
-ASSUMPTIONS = ["floating-point accuracy clause (<= 1e-9 in doubles, no jump at the switch): PROVED under the standard floating-point model A-FP (U = 2^-53, libm within 1 ulp) for the so(3)/se(3)/se_2(3) Jacobians, inverse Jacobians, the Q block and the SO(3)/SE(3)/SE(2) exponentials (C06.fp[...] obligations, all rotation components in [-1, 1], other inputs in [-1, 1]); for the logs, SE_2(3) exp (goes through matrix-to-quaternion) and SE(2) log it is decided only by the BOUNDED sweep",
+ASSUMPTIONS = ["floating-point accuracy clause (<= 1e-9 in doubles, no jump at the switch): PROVED under the standard floating-point model A-FP (U = 2^-53, libm within 1 ulp) for the so(3)/se(3)/se_2(3) Jacobians, inverse Jacobians, the Q block, the SO(3)/SE(3)/SE(2) exponentials, the MRP and SE(2) logarithms, SE3Mrp log and the quaternion/MRP/DCM/Euler conversions (C06.fp[...] obligations; rotation components in the stated box, other inputs in [-1, 1]); for the acos-based logarithms (SO3Quat.log, SO3Dcm.log, SE3Quat.log, SE23 log) and SE_2(3) exp (goes through matrix-to-quaternion) it is decided only by the BOUNDED sweep",
                "exact real-arithmetic correctness of the closed-form cell is C02-C05; the truncation lemmas bound the real-arithmetic error on the Taylor cell per coefficient (<= 1e-12, actual bounds ~1e-17)",
                "entries '1/x^2' and '(2 - x cos(x))/(2 x^2)' have true poles at 0 (no finite limit): they are outside the claim and are not consumed by exp/log/Jacobian/conversion code"]
 BOUNDED = ["floating-point accuracy of every consumer: 34 magnitudes x 3 directions per function, doubles vs 60-digit reference"]
